@@ -186,12 +186,30 @@ def evalarr(a, env, f=None):
     return out
 
 
+def _snap(x, eps=1e-9):
+    """a float within eps of an integer is that integer (models on measure-zero sets such as gamma == 120)"""
+    r = round(x)
+    return float(r) if abs(x - r) < eps else x
+
+
 def cell_floats(env, prefix=''):
     p = prefix
-    return [env[p + 'a'], env[p + 'b'], env[p + 'c'],
-            math.degrees(math.atan2(env[p + 'sal'], env[p + 'cal'])),
-            math.degrees(math.atan2(env[p + 'sbe'], env[p + 'cbe'])),
-            math.degrees(math.atan2(env[p + 'sga'], env[p + 'cga']))]
+    return [_snap(env[p + 'a']), _snap(env[p + 'b']), _snap(env[p + 'c']),
+            _snap(math.degrees(math.atan2(env[p + 'sal'], env[p + 'cal']))),
+            _snap(math.degrees(math.atan2(env[p + 'sbe'], env[p + 'cbe']))),
+            _snap(math.degrees(math.atan2(env[p + 'sga'], env[p + 'cga'])))]
+
+
+def pc_holds(zc, pc, env):
+    """does the float environment satisfy the path condition (evaluated exactly on the floats' rational values)?"""
+    if not pc:
+        return True
+    sub = [(v, smt.RV(Fraction(repr(float(env[n]))))) for n, v in zc.vars.items() if n in env]
+    for c in pc:
+        r = z3.simplify(z3.substitute(c, *sub))
+        if not z3.is_true(r):
+            return False
+    return True
 
 
 def close(a, b, rtol=1e-8, atol=1e-9):
